@@ -3,7 +3,7 @@
    Histories are arbitrary lists of the twelve operations; [state_after (new_cache n) ops] is
    the state reached, [run] collects (return value, callback arguments) per operation. *)
 From Coq Require Import ZArith List Bool Sorting.Sorted Permutation.
-From FV Require Import C13.Model C13.Spec C13.Proofs C13.Refine C13.History.
+From FV Require Import C13.Model C13.Spec C13.Proofs C13.Refine C13.History C13.Ledger.
 Import ListNotations.
 Open Scope Z_scope.
 
@@ -72,9 +72,53 @@ Theorem c13_callback_values : forall c o p, In p (snd (step c o)) ->
 Proof. exact callback_values. Qed.
 Print Assumptions c13_callback_values.
 
+(* the same over a whole history from an empty cache: the keys that ever entered (with
+   multiplicity, [fst (ledger …)]) are those still present plus those the callback was told
+   about ([snd (ledger …)] is the concatenation of every operation's callback arguments, see
+   c13_ledger_is_run) — no departure without a callback, no callback without a departure *)
+Theorem c13_callback_history : forall size ops,
+  Permutation (fst (ledger (new_cache size) ops))
+              (keys (items (state_after (new_cache size) ops)) ++ map fst (snd (ledger (new_cache size) ops))).
+Proof. exact ledger_new. Qed.
+Print Assumptions c13_callback_history.
+
+(* counted per key: callbacks for k = insertions of k, minus one if k is still in the cache *)
+Theorem c13_callback_count : forall size ops k,
+  count_occ Z.eq_dec (map fst (snd (ledger (new_cache size) ops))) k =
+  (count_occ Z.eq_dec (fst (ledger (new_cache size) ops)) k -
+   (if in_dec Z.eq_dec k (keys (items (state_after (new_cache size) ops))) then 1 else 0))%nat.
+Proof. exact ledger_count. Qed.
+Print Assumptions c13_callback_count.
+
+Theorem c13_ledger_is_run : forall ops c,
+  concat (map snd (snd (run c ops))) = snd (ledger c ops) /\ fst (run c ops) = state_after c ops.
+Proof. exact run_ledger. Qed.
+Print Assumptions c13_ledger_is_run.
+
+(* "stored value": after any history every entry holds the value most recently put for its key
+   (Get, Peek, Resize … never change a value), and the callback reports exactly that value *)
+Theorem c13_values_last_put : forall size ops e,
+  In e (items (state_after (new_cache size) ops)) -> last_put (ekey e) ops None = Some (eval e).
+Proof. exact values_last_put. Qed.
+Print Assumptions c13_values_last_put.
+
+Theorem c13_callback_last_put : forall size ops o p,
+  In p (snd (step (state_after (new_cache size) ops) o)) ->
+  last_put (fst p) (ops ++ [o]) None = Some (snd p).
+Proof. exact callback_last_put. Qed.
+Print Assumptions c13_callback_last_put.
+
 (* non-vacuity: a history with evictions, a resize below the size and a purge *)
 Example c13_example :
   let ops := [Put 1 10; Put 2 20; Get 1; Put 3 30; Keys; Resize 1; Put 4 40; Purge] in
   map snd (snd (run (new_cache 2) ops)) = [[]; []; []; [(2, 20)]; []; [(1, 10)]; [(3, 30)]; [(4, 40)]] /\
   nth 4 (map fst (snd (run (new_cache 2) ops))) OUnit = OKeys [1; 3].
 Proof. vm_compute. split; reflexivity. Qed.
+
+(* non-vacuity of the ledger statements: key 1 enters twice, leaves once (reported with the re-put value 11) and is still there *)
+Example c13_ledger_example :
+  let ops := [Put 1 10; Put 2 20; Put 1 11; Put 3 30; Remove 1; Put 1 12] in
+  ledger (new_cache 2) ops = ([1; 2; 3; 1], [(2, 20); (1, 11)]) /\
+  keys (items (state_after (new_cache 2) ops)) = [1; 3] /\
+  last_put 1 ops None = Some 12.
+Proof. vm_compute. repeat split; reflexivity. Qed.
